@@ -211,6 +211,12 @@ func explore(w *World, h HarnessSpec, workers int) (*Stats, error) {
 	cfg := defaultConfig()
 	cfg.Preempt = h.Preempt
 	cfg.Trace = traceAll
+	if h.Params["ZZDETSCHED"] == 1 {
+		cfg.DetSched = true
+	}
+	if n := h.Params["ZZMAXALLOC"]; n > 0 {
+		cfg.MaxAlloc = n
+	}
 	if h.MaxSteps > 0 {
 		cfg.MaxSteps = h.MaxSteps
 	}
